@@ -123,7 +123,7 @@ def laws(ctx, I):
                 ctx.report('C08.R2', 'AxisPosition.setHome', 'homing leaves %s = %r' % (fld, x), 'G28 must zero position and G92 offset')
 
 
-def native_args_rule(ctx, I):
+def native_args_rule(ctx, I, r1='C08.R1', r7='C08.R7'):
     for absolute in (True, False):
         st, H, S = new_handlers_state(I)
         st.restrict(('fld', S_OID, '_exclusionEnabled'), frozenset([True]))
@@ -144,7 +144,7 @@ def native_args_rule(ctx, I):
             for (s, v) in rs:
                 if isinstance(v, Raised):
                     continue
-                ctx.instance('C08.R7', ('points', len(pts) // 2, 'abs' if absolute else 'rel', repr(v)))
+                ctx.instance(r7, ('points', len(pts) // 2, 'abs' if absolute else 'rel', repr(v)))
                 for i, axn in ((0, 'X_AXIS'), (1, 'Y_AXIS')):
                     o = '%s.position.%s' % (S_OID, axn)
                     u = Poly.sym(o + '.unitMultiplier')
@@ -157,7 +157,7 @@ def native_args_rule(ctx, I):
                             want = want + q * u
                     for a in live_alts(s, s.heap[(o, 'current')]):
                         if not (isinstance(a, Num) and a.p == want):
-                            ctx.report('C08.R7', 'ExcludeRegionState.isAnyPointExcluded',
+                            ctx.report(r7, 'ExcludeRegionState.isAnyPointExcluded',
                                        '%s tracked at the wrong place after %d point(s) (%s positioning)'
                                        % (axn[0], len(pts) // 2, 'absolute' if absolute else 'relative'),
                                        'after testing the points the tracked %s is %r; a printer given the same points is at %r'
@@ -165,7 +165,7 @@ def native_args_rule(ctx, I):
         for (s, v) in res:
             for e in s.trace:
                 if e[0] == 'ext' and e[1].endswith('containsPoint'):
-                    ctx.instance('C08.R1', ('abs' if absolute else 'rel', repr(e[2])[:60]))
+                    ctx.instance(r1, ('abs' if absolute else 'rel', repr(e[2])[:60]))
                     for arg, p, axn in ((e[2][0], px, 'X_AXIS'), (e[2][1], py, 'Y_AXIS')):
                         o = '%s.position.%s' % (S_OID, axn)
                         u = Poly.sym(o + '.unitMultiplier')
@@ -175,7 +175,7 @@ def native_args_rule(ctx, I):
                             want = p.p * u + Poly.sym(o + '.current')
                         for a in live_alts(s, arg):
                             if not (isinstance(a, Num) and a.p == want):
-                                ctx.report('C08.R1', 'ExcludeRegionState.isAnyPointExcluded',
+                                ctx.report(r1, 'ExcludeRegionState.isAnyPointExcluded',
                                            '%s region-test argument (%s mode)' % (axn[0], 'absolute' if absolute else 'relative'),
                                            'the region test is given %r; a native coordinate %r is required (regions are '
                                            'defined in mm on the bed)' % (getattr(a, 'p', a), want))
